@@ -107,6 +107,11 @@ def harnesses(ctx, tier):
         hs.append(atoms_h("stage_nocase_len%d" % cl, 4, [], max(6, 2 ** cl + 2), L=cl, timeout=1800,
                           desc="_yr_atoms_case_insensitive on one arbitrary atom of length %d (all byte values)" % cl))
         hs[-1].flags = ["--object-bits", "10"]
+    # layer 4: the automaton is shared by all strings of a rule set; the builder's decision to drop a failure link
+    # (_yr_ac_transitions_subset) is what keeps occurrences of one string reachable while another one is being matched
+    hs.append(Harness(name="H4_ac_transitions_subset", src="c05/ac_leaf.c", defines=["-DVF_MODE=1"], unwind=5, timeout=300,
+                      desc="_yr_ac_transitions_subset on two arbitrary child lists: a needed failure link is never optimised away",
+                      bounds="<= 3 children per state, all input bytes", functions=["_yr_ac_transitions_subset"]))
     T = QUICK + (THOROUGH_EXTRA if tier == "thorough" else [])
     for name, sb, mods in T:
         hs.append(text_template(name, list(sb), mods, N))
